@@ -250,4 +250,21 @@ example : ShapeOk { nx := [3, 2], per := [true, false] } := by
 example : BinOk { nx := [3, 2], per := [true, false] } [2, 1] := by unfold BinOk; decide
 example : PointOk { nx := [3, 2], per := [true, false] } [2, 2] := by unfold PointOk; decide
 
+/-! ## where the points of the surface sit -/
+
+/-- the `j`-th value of the surface is reported at the **lower edge of gradient bin `j`** (`lo + j·w`), in periodic and
+    non-periodic dimensions alike: the gradients are bin averages and the surface is their cumulative sum, so that is the
+    point up to which `int1d` has integrated.  (A half-bin shift applied only to non-periodic dimensions moves the surface of a
+    periodic one by `w/2` and turns the second-order agreement with a smooth surface into first order.) -/
+theorem surface_point_at_bin_edge (lo w : ℝ) (j : Int) : pmfCoord lo w j = lo + w * (j : ℝ) := by
+  unfold pmfCoord pmfLower
+  norm_num
+  ring
+
+/-- consecutive points are one bin width apart -/
+theorem surface_points_spacing (lo w : ℝ) (j : Int) : pmfCoord lo w (j + 1) - pmfCoord lo w j = w := by
+  rw [surface_point_at_bin_edge, surface_point_at_bin_edge]
+  push_cast
+  ring
+
 end Cv.C16
